@@ -99,6 +99,50 @@ StaticVerdict(d) ==
    names     |-> NamesAgree(d)]
 
 ---------------------------------------------------------------------------
+(* Part 1b: the BUILDERS the shipped schemas are assembled with               *)
+(* (mach_utils.go State.Extend = StateAdd, State.Set / SetRels = StateSet,    *)
+(* Schema.Merge / SchemaMerge).  A state is                                   *)
+(*   [auto, multi, require, add, remove, after], a relation [nil, v]          *)
+(* (nil = the Go slice is nil: "not mentioned").                              *)
+BRels == {"require", "add", "remove", "after"}
+BRel(st, r) == CASE r = "require" -> st.require [] r = "add" -> st.add
+                 [] r = "remove" -> st.remove [] r = "after" -> st.after
+
+(* Extend: the overlay's relations are ADDED to the source's (SAdd: unique,   *)
+(* source order first), only TRUE flags are applied                           *)
+ExtendRel(src, ov) ==
+  IF ov.nil THEN src ELSE [nil |-> FALSE, v |-> SUniq(src.v \o ov.v)]
+ExtendSpec(src, ov) ==
+  [auto |-> src.auto \/ ov.auto, multi |-> src.multi \/ ov.multi,
+   require |-> ExtendRel(src.require, ov.require), add |-> ExtendRel(src.add, ov.add),
+   remove |-> ExtendRel(src.remove, ov.remove), after |-> ExtendRel(src.after, ov.after)]
+
+(* Set: a relation the overlay mentions REPLACES the source's, the rest is    *)
+(* preserved; the flags are the arguments                                     *)
+SetRel(src, ov) == IF ov.nil THEN src ELSE ov
+SetSpec(src, auto, multi, ov) ==
+  [auto |-> auto, multi |-> multi,
+   require |-> SetRel(src.require, ov.require), add |-> SetRel(src.add, ov.add),
+   remove |-> SetRel(src.remove, ov.remove), after |-> SetRel(src.after, ov.after)]
+
+(* Merge: state-level override, the last schema that defines a name wins      *)
+RECURSIVE MergeSpec(_)
+MergeSpec(ins) ==
+  IF Len(ins) = 1 THEN ins[1]
+  ELSE LET a == MergeSpec(SubSeq(ins, 1, Len(ins) - 1))
+           b == ins[Len(ins)]
+       IN [n \in DOMAIN a \cup DOMAIN b |-> IF n \in DOMAIN b THEN b[n] ELSE a[n]]
+
+(* what the PROPERTY needs of a built state: its relation targets and flags   *)
+(* (order and nil-ness are conformance detail)                                *)
+SameMeaning(x, y) ==
+  /\ x.auto = y.auto /\ x.multi = y.multi
+  /\ \A r \in BRels : SSet(BRel(x, r).v) = SSet(BRel(y, r).v)
+SameExactly(x, y) ==
+  /\ x.auto = y.auto /\ x.multi = y.multi
+  /\ \A r \in BRels : BRel(x, r).v = BRel(y, r).v
+
+---------------------------------------------------------------------------
 (* Part 2: groups                                                             *)
 
 Mutual(s, a, b) == a # b /\ SHas(s[a].remove, b) /\ SHas(s[b].remove, a)
@@ -118,17 +162,33 @@ MaxCliques(s) ==
   IN {G \in BK(s, {}, nodes, {}) : Cardinality(G) >= 2}
 
 (* a declared group (a field of ...Groups) is meant to be exclusive when its  *)
-(* members Remove one another: every two members are related by Remove in at  *)
-(* least one direction (so a member that misses one Remove keeps the group    *)
-(* under test, while plain lists such as the debugger's "Mcp" are not).       *)
+(* members Remove one another.  The INTENT has to survive the edits this      *)
+(* property is about (a member that loses a Remove, an inherited state whose  *)
+(* relations were mis-merged), so a declared group is under test when         *)
+(*  (a) every two members are related by Remove in at least one direction, or *)
+(*  (b) at least two members, and at least half of them, Remove every other   *)
+(*      member ("Remove: group" written on each member, some of them edited). *)
+(* Plain lists such as the debugger's "Mcp" satisfy neither.  (Inheriting the *)
+(* intent by member NAMES from another schema was tried and is unsound: the   *)
+(* REPL schema takes Connecting / Connected from the connection-POOL schema,  *)
+(* where they coexist by design.  Mis-merged inherited states are caught by   *)
+(* the builder conformance of Part 1b instead.)                               *)
 PairwiseRemoving(s, G) ==
   /\ Cardinality(G) >= 2
   /\ G \subseteq DOMAIN s
   /\ \A a, b \in G : a # b => SHas(s[a].remove, b) \/ SHas(s[b].remove, a)
 
+MajorityRemoveAll(s, G) ==
+  /\ Cardinality(G) >= 2
+  /\ G \subseteq DOMAIN s
+  /\ LET full == {a \in G : (G \ {a}) \subseteq SSet(s[a].remove)}
+     IN Cardinality(full) >= 2 /\ 2 * Cardinality(full) >= Cardinality(G)
+
 DeclaredExclusive(s, groups) ==
   {SSet(groups[i].members) : i \in {k \in 1..Len(groups) :
-                                      PairwiseRemoving(s, SSet(groups[k].members))}}
+      LET G == SSet(groups[k].members) IN
+      \/ PairwiseRemoving(s, G)
+      \/ MajorityRemoveAll(s, G)}}
 
 ExclusiveGroups(s, groups) == MaxCliques(s) \cup DeclaredExclusive(s, groups)
 
